@@ -22,7 +22,9 @@ from harness.repo import Cell, Parser, Executor
 
 MEMBER = re.compile(r'^    def (_\d+_\d+_\d+)\(self\):', re.M)
 TITLES = {'plain': 'Data', 'space': 'My Sheet', 'quote': "it's", 'dquote': 'say "hi"', 'brace': 'a{b}c', 'format': '{functions}',
-          'digit': '1st', 'unicode': 'Лист1', 'long': 'L' * 31}
+          'digit': '1st', 'unicode': 'Лист1', 'long': 'L' * 31,
+          # runs of quotes, and a quote as the very last character of the last title of the workbook
+          'dquote3': 'a"""b', 'dquote_last': '"Q1"', 'squote3': "a'''b"}
 CONSTS = {'int': 42, 'float': 2.5, 'bigint': 12345678901234, 'bool': True, 'text': 'hello', 'text_quote': "it's \"q\"",
           'text_backslash': 'a\\', 'text_newline': 'a\nb', 'text_brace': '{x} {0} %s', 'datetime': datetime.datetime(2024, 1, 2, 3, 4, 5),
           'date': datetime.date(2024, 2, 29), 'time': datetime.time(3, 4, 5), 'timedelta': datetime.timedelta(hours=30),
@@ -60,6 +62,8 @@ def build_sheets(d):
             qt = "'" + title.replace("'", "''") + "'"
             f = f.replace('{T}', qt)
         cells[(0, 0)] = f                                            # A1
+    if d['title'] == 'dquote_last':
+        return [(other, {(1, 0): 9}), (title, cells)]
     return [(title, cells), (other, {(1, 0): 9})]
 
 
